@@ -15,7 +15,8 @@ interleaving leaves the registry observably equal to a twin that never saw it; (
 history behaves like a canonical registry built from the same contents; (O3) valid iff some registered profile
 that defines the property accepts; (O4) defaultProfiles changes `matching`/reported profile only; (O5) removing
 an unknown profile raises NoSuchProfileException and changes nothing; (O6) remove-all then re-adding the
-built-ins in the original order restores a fresh `Profiles()`.
+built-ins in the original order restores a fresh `Profiles()`; (O7) any mutator that raises (undefined macro,
+cyclic macro, unknown profile) leaves the registry unchanged.
 """
 import copy
 import json
@@ -59,7 +60,7 @@ FNS = [_f0, _f1, _f2]
 BATTERY_SPEC = {
     'color': ['red', 'aliceblue', 'rgba(1,1,1,1)', 'inherit', 'foo', 'q', 'z', 'RED', 'currentcolor', 'XXX', '#fff'],
     'x': ['a', 'b', 'q', 'z', 'zz', 'foo', 'red', 'aliceblue', '1px', '5', '-1', 'ok', '', 'x', 'a b', 'auto'],
-    'y': ['a', 'q', 'z', 'foo', 'red', '1px', '5', 'ok', 'x', '10%', 'serif', 'solid'],
+    'y': ['a', 'q', 'z', 'foo', 'red', '1px', '5', 'ok', 'x', '10%', 'serif', 'solid', 'aliceblue', 'currentcolor'],
     '-test-a': ['a', 'b', 'q', 'zz', 'foo', '5', 'ok', 'hidden', 'none'],
     'font-family': ['serif', 'foo', 'a b', 'inherit', 'x', '5'],
     'overflow': ['hidden', 'q', 'a', 'hidden hidden', 'inherit', 'visible'],
@@ -397,9 +398,11 @@ class C14(Check):
             'undefined and cyclic macros), addProfiles (1-3 entries, also the built-in tables), removeProfile '
             '(registered, unknown, None), removeProfile(all), defaultProfiles := None / subset / single name / '
             'unregistered} from 4 start states (fresh Profiles(), built-ins removed one by one, random subset '
-            'removed, remove-all). non-trivial = distinct (history prefix) whose last operation changed an '
-            'observable or raised; verdict battery: %d (name, value) pairs x validate/validateWithProfile after '
-            'every operation' % len(BATTERY))
+            'removed, remove-all); corpus = the histories of the four repaired findings and hand-made ones, run '
+            'first. non-trivial = distinct (history prefix) whose last operation changed an observable or raised, '
+            'and distinct oracle cases; verdict battery: %d (name, value) pairs x validate/validateWithProfile '
+            'after every operation, plus validateWithProfile/propertiesByProfile with explicit profile arguments'
+            % len(BATTERY))
 
     # ------------------------------------------------------------------------------------------
     def translate(self, ctx):
@@ -828,9 +831,12 @@ class C14(Check):
         """run a history on the implementation; returns registry and tracker"""
         p = p or impl.fresh()
         tr = Tracker(self.builtin_order)
+        tr.outcomes = []
         for op in ops:
             tr.pre(op, self.base_keys)
-            tr.post(op, impl.apply(p, op))
+            out = impl.apply(p, op)
+            tr.outcomes.append(out)
+            tr.post(op, out)
         return p, tr
 
     PRIORITY = []       # open known findings, most specific first (none)
@@ -989,6 +995,14 @@ class C14(Check):
         with_p = ops[:i] + [['add'] + pdef] + ops[i:j] + [['rm', 'P']] + ops[j:]
         a, tra = self.run_history(impl, with_p)
         b, trb = self.run_history(impl, ops)
+        # the property speaks about a profile that IS added and removed again while the other operations go
+        # through alike: if some call raised from the macro expansion in either history (e.g. another profile
+        # started to lean on P's macros, so that removing P is refused), the premise does not hold
+        quiet = ('OK', 'NoSuchProfileException')
+        if any(o not in quiet for o in tra.outcomes + trb.outcomes) or tra.outcomes[i] != 'OK' \
+                or tra.outcomes[j + 1] != 'OK':
+            ctx.case(key=('O1', repr(with_p)), nontrivial=False, kind='oracle:add-remove:premise-not-met')
+            return
         ctx.case(key=('O1', repr(with_p)), nontrivial=True, kind='oracle:add-remove',
                  sample={'oracle': 'O1', 'added_then_removed': pdef, 'at': [i, j], 'other_ops': len(ops)})
         d = self.snap_diff(self.snapshot(impl, a), self.snapshot(impl, b))
@@ -1014,6 +1028,29 @@ class C14(Check):
         b, _ = self.run_history(impl, w['same_contents_history'])
         vb = impl.verdicts(b, [(n, v)])
         return list(a.profiles) == list(b.profiles) and va != vb
+
+    def search(self, ctx):
+        """an obligation or the correspondence broke: look for a concrete failing input with the oracle alone, on
+        more histories than the quick tier, stopping at the first one"""
+        ctx.search_mode = True
+        impl = Impl()
+        t = self.tables(ctx)
+        self.base_keys = set(t['token']) | set(t['general'])
+        self.builtin_order = t['order']
+        rng = ctx.sub_rng('c14-search')
+        # histories on which model and implementation disagreed come first
+        seqs = [d['input']['history'] for d in ctx.disagreements
+                if isinstance(d.get('input'), dict) and d['input'].get('history')]
+        seqs += self.corpus(ctx) + self.fixed_histories()
+        for ops in seqs:
+            self.oracle_history(ctx, impl, ops, rng)
+            if ctx.violations:
+                return
+        for i in range(600):
+            self.oracle_history(ctx, impl, self.gen_history(rng, clean=(i % 3 == 0)), rng)
+            self.oracle_twin(ctx, impl, rng)
+            if ctx.violations:
+                return
 
     def replay(self, ctx, data):
         impl = Impl()
